@@ -17,6 +17,8 @@ THEOREMS = [
     ("EG.props.C01", "C01_match_all_header_semantics"),
     ("EG.props.C01", "C01_port_ignored"),
     ("EG.props.C01", "C01_valid_never_panics"),
+    ("EG.props.C01", "C01_mapper_history_503"),
+    ("EG.props.C01", "C01_mapper_history_dispatch"),
 ]
 HARNESSES = [
     dict(name="route", pkg="pkg/object/httpserver", files=["harness/httpserver/zz_verif_c01_test.go"],
@@ -31,9 +33,11 @@ EXPLAIN = {"route": "explain_route"}
 CASES = {"quick": 400, "thorough": 12000}
 RULE = ("case = one HTTPServer spec (1-4 rules x 0-4 paths; exact/prefix/regexp paths and combinations, method lists, "
         "0-3 header conditions with values/regexp, matchAllHeader on/off, rewrite targets incl. $n templates, host/hostRegexp, "
-        "optional IP filters) x 4-14 requests derived from the rule set (hits and near misses); non-trivial = spec accepted by "
+        "optional IP filters) x 4-14 requests derived from the rule set (hits and near misses) served by ONE mux instance; in half of the "
+        "cases the MuxMapper content changes between requests (pipelines deleted, re-created, replaced by a new handler identity) and "
+        "requests recur; non-trivial = spec accepted by "
         "the real validation and >=1 request; class = 1 + bit set of observed outcome kinds "
-        "(200, 400, 405, 404, 503, 403, path rewritten); distinct = distinct (group, input) hashes among non-trivial cases")
+        "(200, 400, 405, 404, 503, 403, path rewritten, mapper changed during the history); distinct = distinct (group, input) hashes among non-trivial cases")
 TRUSTED_BASE = [
     "model coq/model/Mux.v is hand-written; tied to pkg/object/httpserver/mux.go by the per-run correspondence (sampled)",
     "oracles computed by the harness with the real libraries: Go regexp (MatchString/ReplaceAllString), IPFilter.Allow, "
@@ -41,6 +45,7 @@ TRUSTED_BASE = [
     "requests are injected at mux.ServeHTTP (net/http request parsing not exercised); quic-go replaced by a compile-only stub",
 ]
 ASSUMPTIONS = ["spec accepted by the real validation (supervisor.NewSpec); regexps compile",
+               "the MuxMapper is read at every request (pipelines may be created, deleted, replaced between requests)",
                "route cache off (cacheSize 0)",
                "ACME challenge path /.well-known/acme-challenge/ out of scope"]
 
@@ -68,8 +73,16 @@ def _fid(present, n):
     return Opt(N(n)) if present else "None"
 
 
-def enc_server(i):
-    sv, orc = i["server"], i["oracle"]
+def servers(i):
+    return [i["server"]] + list(i.get("alts") or [])
+
+
+def enc_server(i, sv=None, sidx=0):
+    """sidx = index of the spec (0 = server, k = alts[k-1]); filter ids as in the harness."""
+    orc = i["oracle"]
+    if sv is None:
+        sv = i["server"]
+    base = 1000000 * sidx
     ck = {k: v for k, v in (orc.get("ckeys") or [])}
     rules = []
     for ri, r in enumerate(sv.get("rules") or []):
@@ -81,10 +94,10 @@ def enc_server(i):
                              pe_regexp=S(p.get("regexp") or ""), pe_methods=L([S(m) for m in p.get("methods") or []]),
                              pe_rewrite=S(p.get("rewrite") or ""), pe_backend=S(p.get("backend") or ""),
                              pe_headers=L(hs), pe_match_all=B(p.get("matchAll")),
-                             pe_filter=_fid(p.get("filter") is not None, 1000 * (ri + 1) + pj + 1)))
+                             pe_filter=_fid(p.get("filter") is not None, base + 1000 * (ri + 1) + pj + 1)))
         rules.append(Rec(ru_host=S(r.get("host") or ""), ru_host_re=S(r.get("hostRegexp") or ""),
-                         ru_filter=_fid(r.get("filter") is not None, 1000 * (ri + 1)), ru_paths=L(paths)))
-    return Rec(sv_filter=_fid(sv.get("filter") is not None, 0), sv_rules=L(rules),
+                         ru_filter=_fid(r.get("filter") is not None, base + 1000 * (ri + 1)), ru_paths=L(paths)))
+    return Rec(sv_filter=_fid(sv.get("filter") is not None, base), sv_rules=L(rules),
                sv_backends=L([S(b) for b in sv.get("backends") or []]))
 
 
@@ -108,19 +121,27 @@ def enc_hostnames(i):
 
 
 def enc_obs(o):
-    return T(Z(o["status"]), S(o["backend"]), S(o["path"]), B(o["panic"]))
+    return T(Z(o["status"]), S(o["backend"]), S(o["path"]), B(o["panic"]), Z(o.get("gen") or 0))
+
+
+def enc_mappers(i):
+    default = [dict(name=b, gen=1) for b in i["server"].get("backends") or []]
+    ms = list(i.get("mappers") or [])
+    n = len(i.get("reqs") or [])
+    ms = (ms + [default] * n)[:n]
+    return L([L([T(S(b["name"]), N(b["gen"])) for b in (m or [])]) for m in ms])
 
 
 def encode(c):
     i, o = c["in"], c["obs"]
     if c["grp"] == "route":
-        return Rec(rc_sv=enc_server(i), rc_tabs=enc_tabs(i), rc_reqs=enc_reqs(i), rc_hostnames=enc_hostnames(i),
+        return Rec(rc_sv=enc_server(i), rc_tabs=enc_tabs(i), rc_reqs=enc_reqs(i), rc_mappers=enc_mappers(i), rc_hostnames=enc_hostnames(i),
                    rc_accepted=B(o["accepted"]), rc_obs=L([enc_obs(x) for x in o.get("outs") or []]))
     raise ValueError(c["grp"])
 
 
 def distribution(cases):
-    d = dict(groups={}, accepted=0, rules={}, paths={}, requests=0, statuses={}, dispatched=0, rewritten=0,
+    d = dict(groups={}, accepted=0, mapper_histories=0, mapper_changes=0, rules={}, paths={}, requests=0, statuses={}, dispatched=0, rewritten=0,
              header_conditioned_entries=0, regexp_entries=0, filters=0)
     for c in cases:
         d["groups"][c["grp"]] = d["groups"].get(c["grp"], 0) + 1
@@ -137,9 +158,13 @@ def distribution(cases):
                 d["header_conditioned_entries"] += bool(p.get("headers"))
                 d["regexp_entries"] += bool(p.get("regexp"))
                 d["filters"] += p.get("filter") is not None
+        ms = c["in"].get("mappers") or []
+        ch = sum(1 for a, b in zip(ms, ms[1:]) if a != b)
+        d["mapper_histories"] += ch > 0
+        d["mapper_changes"] += ch
         outs = c["obs"].get("outs") or []
         if outs and isinstance(outs[0], dict) and "cached" in outs[0]:
-            reqs = [c["in"]["reqs"][k] for k in c["in"].get("seq") or []]
+            reqs = [c["in"]["reqs"][k] for k in c["in"].get("seq") or [] if k >= 0]
             outs = [x["cached"] for x in outs]
         else:
             reqs = c["in"].get("reqs") or []
@@ -161,7 +186,19 @@ def shrink_candidates(inp, grp):
         for k in range(len(reqs)):       # one request alone
             cand = copy.deepcopy(inp)
             cand["reqs"] = [reqs[k]]
+            if inp.get("mappers"):
+                cand["mappers"] = [inp["mappers"][k]] if k < len(inp["mappers"]) else []
             yield cand
+        ms = inp.get("mappers") or []
+        if ms:                               # histories: drop one step / keep a prefix
+            for k in range(len(reqs) - 1, 0, -1):
+                cand = copy.deepcopy(inp)
+                cand["reqs"], cand["mappers"] = reqs[:k], ms[:k]
+                yield cand
+            for k in range(len(reqs)):
+                cand = copy.deepcopy(inp)
+                cand["reqs"], cand["mappers"] = reqs[:k] + reqs[k + 1:], ms[:k] + ms[k + 1:]
+                yield cand
     rules = inp["server"].get("rules") or []
     for ri in range(len(rules)):
         if len(rules) > 1:
